@@ -33,6 +33,7 @@ import (
 	"github.com/emitter-io/emitter/internal/provider/logging"
 	"github.com/emitter-io/emitter/internal/security"
 	"github.com/emitter-io/emitter/internal/service/keygen"
+	"github.com/emitter-io/emitter/internal/verifyield"
 	"github.com/emitter-io/stats"
 	"github.com/kelindar/binary"
 	"github.com/kelindar/binary/nocopy"
@@ -273,6 +274,7 @@ func (c *Conn) onReceive(msg mqtt.Message) error {
 
 // Send forwards the message to the underlying client.
 func (c *Conn) Send(m *message.Message) (err error) {
+	verifyield.Point("broker.Conn.Send")
 	defer c.MeasureElapsed("send.pub", time.Now())
 	packet := mqtt.Publish{
 		Header:  mqtt.Header{QOS: 0},
